@@ -30,7 +30,7 @@ SIGS = {0: dict(path=[], query=[], body=None, responses=[200]),
         7: dict(path=[], query=[], body='multipart/form-data', responses=[200]),
         8: dict(path=['string'], query=[['tag', 'string', True]], body='application/json', responses=[201, 404, 500]),
         9: dict(path=[], query=[], body=None, responses=[]),
-        10: dict(path=[], query=[], body='application/json', responses=[]),
+        10: dict(path=[], query=[], body='application/json', responses=[], body_optional=True),          # Option<JSON<T>>: a request without the body is served too
         11: dict(path=['integer'], query=[], body=None, responses=[200, 404]),
         12: dict(path=[], query=[['age', 'integer', True], ['limit', 'integer', False], ['name', 'string', True], ['nick', 'string', False], ['zone', 'string', True]], body=None, responses=[200])}
 _QA, _QB, _QD, _QE = [['page', 'integer', False], ['q', 'string', True]], [['tag', 'string', True]], [['d', 'string', True]], [['e', 'integer', True], ['f', 'string', False]]
@@ -199,7 +199,7 @@ def flat(app, prefix='', chain=()):
 def expected_op(names, k, chain):
     s = SIGS[k]
     tys = s['path'] + ['string'] * max(0, len(names) - len(s['path']))
-    return {'path': [[n, t] for n, t in zip(names, tys)], 'query': sorted(map(tuple, s['query'])), 'body': s['body'], 'responses': sorted(s['responses']),
+    return {'path': [[n, t] for n, t in zip(names, tys)], 'query': sorted(map(tuple, s['query'])), 'body': s['body'], 'body_required': (not s.get('body_optional', False)) if s['body'] else None, 'responses': sorted(s['responses']),
             'security': sorted({AUTH[f['k']] for f in chain if f['k'] in AUTH}),          # one requirement object: every scheme of it must be satisfied (a set)
             'tags': ['t%d' % f['id'] for f in chain if f['k'] == 'tag']}
 
@@ -207,7 +207,7 @@ def expected_op(names, k, chain):
 def read_op(op):
     ps = op.get('parameters', [])
     return {'path': [[p['name'], p['schema'].get('type')] for p in ps if p['in'] == 'path'], 'query': sorted((p['name'], p['schema'].get('type'), p['required']) for p in ps if p['in'] == 'query'),
-            'body': (sorted(op['requestBody']['content']) + [None])[0] if 'requestBody' in op else None, 'responses': sorted(int(c) for c in op.get('responses', {})),
+            'body': (sorted(op['requestBody']['content']) + [None])[0] if 'requestBody' in op else None, 'body_required': op['requestBody'].get('required', False) if 'requestBody' in op else None, 'responses': sorted(int(c) for c in op.get('responses', {})),
             'security': sorted({n for s in op.get('security', []) for n in s}), 'tags': op.get('tags', [])}
 
 
@@ -275,7 +275,7 @@ def judge(case, out, m):
         if (t, meth) in want_pairs:
             names, k, chain = want_pairs[(t, meth)]
             exp, got = expected_op(names, k, chain), read_op(op)
-            for field in ('path', 'query', 'body', 'responses', 'security', 'tags'):
+            for field in ('path', 'query', 'body', 'body_required', 'responses', 'security', 'tags'):
                 if exp[field] != got[field]: v.append(('violation', f'{where} (handler h{k}): {field} documented as {got[field]}, the application has {exp[field]}'))
             if len(op.get('security', [])) > 1:
                 v.append(('violation', f'{where}: {len(op["security"])} entries in `security` — they are alternatives (any ONE suffices, OpenAPI 3.1 4.8.10), but every authentication fang around the handler must be satisfied: {[f["k"] for f in chain if f["k"] in AUTH]}'))
@@ -301,6 +301,7 @@ def judge(case, out, m):
             e, got = model_ops[key], read_op(got_pairs[key])
             me = {'path': [[p['name'], p['type']] for p in e['parameters'] if p['in'] == 'path'], 'query': sorted((p['name'], p['type'], p['required']) for p in e['parameters'] if p['in'] == 'query'),
                   'body': e['body'], 'responses': sorted(e['responses']), 'security': sorted(set(e['security'])), 'tags': e['tags']}
+            got = {k: x for k, x in got.items() if k != 'body_required'}          # (whether the body may be absent is judged by the oracle; the model has the media type)
             if me != got: v.append(('disagree', f'{key}: impl {got} model {me}'))
     return v
 
